@@ -108,16 +108,12 @@ impl Bucket {
 //@|         assert(refill_step(*old(self), *self, now@));
 //@|     }
 //@| }
-//@ins after 1
-//@- .saturating_add(
+//@ins before 1
+//@- self.last_fill = self.last_fill + self.refill_period * refill_periods;
 //@| proof {
+//@|     // (hint anchored on the clock update, not on how the fill is computed)
 //@|     let pr = periods_at(*old(self), now@) * old(self).refill;
-//@|     assert(self.fill == clamp_i64(old(self).fill + clamp_i64(pr)));
-//@| }
-//@ins after 1
-//@- self.fill = std::cmp::
-//@| proof {
-//@|     let pr = periods_at(*old(self), now@) * old(self).refill;
+//@|     assert(clamp_i64(old(self).fill + clamp_i64(pr)) == min_int(i64::MAX as int, old(self).fill + min_int(pr, i64::MAX as int)));
 //@|     assert(self.fill == min_int(old(self).max as int, old(self).fill + min_int(pr, i64::MAX as int)));
 //@| }
 //@ins after 1
